@@ -539,10 +539,57 @@ def check_hash_pure(prog: Program, res: Result) -> None:
                 if isinstance(r, ast.Return)]
         inst = f"{K}.__hash__ returns {fn}(self)"
         s = hi.params()[0]
+        from .eqrules import REFINER
+        from .pe import resolve as _resolve
+
+        def expanded(r: ast.Return) -> bool:
+            """The same computation spelled out in the method: order-free
+            hash of the class's refined colours, started from process
+            independent labels (atom types / label_hash(('atom_type',)))."""
+            e = _resolve(r.value, hi.node)
+            # value-preserving array wrappers around the colours; the plain
+            # atom-type array np.array(self.atom_types, ..) stays
+            from .core import clone as _clone
+
+            class _Unwrap(ast.NodeTransformer):
+                def visit_Call(self, n):
+                    self.generic_visit(n)
+                    if (call_name(n) or "") in ("np.array", "np.asarray",
+                                                "numpy.array") and \
+                            len(n.args) == 1 and isinstance(
+                            n.args[0], ast.Call) and all(
+                            k.arg == "dtype" for k in n.keywords):
+                        return n.args[0]
+                    return n
+            x = _Unwrap().visit(_clone(e))
+            if isinstance(x, ast.Call) and call_name(x) == "int" and \
+                    len(x.args) == 1:
+                x = x.args[0]
+            if not (isinstance(x, ast.Call) and call_name(x) ==
+                    "numpy_int_multiset_hash" and len(x.args) == 1):
+                return False
+            c = x.args[0]
+            if not (isinstance(c, ast.Call) and call_name(c) == REFINER[K]
+                    and c.args and norm(c.args[0]) == s):
+                return False
+            lab = c.args[1] if len(c.args) > 1 else next(
+                (k.value for k in c.keywords if k.arg == "atom_labels"), None)
+            if lab is None:
+                return True
+            lt = norm(lab, 300)
+            return lt in (f"label_hash({s}, atom_labels=('atom_type',))",
+                          f"label_hash({s}, ('atom_type',))",
+                          f"np.array({s}.atom_types, dtype=np.int64)",
+                          f"np.array({s}.atom_types)")
+        ret_nodes = [r for r in ast.walk(hi.node) if isinstance(r, ast.Return)]
+        plain = {f"hash({s}.__class__)", f"hash(type({s}))"}
         if f"{fn}({s})" in rets and all(
-                r in (f"{fn}({s})", f"hash({s}.__class__)",
-                      f"hash(type({s}))") for r in rets):
+                r in ({f"{fn}({s})"} | plain) for r in rets):
             res.ok("R-HASH-PURE", inst, hi.loc())
+        elif ret_nodes and all(norm(r.value) in plain or norm(
+                r.value) == f"{fn}({s})" or expanded(r) for r in ret_nodes) \
+                and any(expanded(r) for r in ret_nodes):
+            res.ok("R-HASH-PURE", inst, hi.loc(), "spelled out in the method")
         else:
             res.bad("R-HASH-PURE", f"{hi.short} returns {rets}", hi.loc(),
                     f"{inst}: returns {rets}", instance=inst)
